@@ -27,7 +27,7 @@ type cfgCase struct {
 }
 
 func drawStyle(rt *rapid.T) cfg.Style {
-	return cfg.Style{Seed: rapid.Uint64().Draw(rt, "styleseed"), PermKeys: rapid.Bool().Draw(rt, "perm"), Flow: rapid.Bool().Draw(rt, "flow"), Quotes: rapid.Bool().Draw(rt, "quotes")}
+	return cfg.Style{Seed: rapid.Uint64().Draw(rt, "styleseed"), PermKeys: rapid.Bool().Draw(rt, "perm"), Flow: rapid.Bool().Draw(rt, "flow"), Quotes: rapid.Bool().Draw(rt, "quotes"), Blocks: rapid.Bool().Draw(rt, "blocks")}
 }
 
 // verdictEval runs the case in-process and compares the verdict with the reference
